@@ -143,6 +143,30 @@ def loaders_on_scalars(ctx):
             odd.append(s)
             ctx.failing('plain scalar %r is typed differently by validate and by test/library: %s' % (s, info['loaded']),
                         dict(info, **{'class': 'plain-scalar-outside-json'}), found=True)
+    # every non-plain style (single / double quoted, literal and folded block scalars) is a string, whatever it looks like
+    ops, meta = [], []
+    for s in PLAIN_UNIVERSE:
+        if not s or s != s.strip():
+            continue
+        forms = [('single', "k: '%s'\n" % s, s), ('double', 'k: "%s"\n' % s, s), ('literal-strip', 'k: |-\n  %s\n' % s, s), ('folded-strip', 'k: >-\n  %s\n' % s, s),
+                 ('literal-keep', 'k: |\n  %s\n' % s, s + '\n'), ('folded-keep', 'k: >\n  %s\n' % s, s + '\n'),
+                 ('literal-in-list', 'k:\n  - |-\n    %s\n' % s, None)]
+        for style, text, want in forms:
+            for ld in ('cli', 'test', 'lib'):
+                ops.append({'op': 'doc', 'data': text, 'loader': ld}); meta.append((s, style, ld, text, want))
+    res = impl.run_ops_parallel(ops, ctx.wd, 'c11quoted')
+    nq = 0
+    for (s, style, ld, text, want), r in zip(meta, res):
+        rr = r.get('res')
+        got = strip_dump(rr[1]) if rr and rr[0] == 'Ok' else ('error', str(rr)[:100])
+        exp = of_python({'k': [s]} if want is None else {'k': want})
+        nq += 1
+        if got != exp:
+            ctx.failing('the %s scalar %r is not loaded as that string by the %s loader: %s' % (style, s, ld, str(got)[:160]),
+                        {'class': 'non-plain-scalar-typed', 'text': text, 'style': style, 'loader': ld, 'loaded': str(got)[:300]}, found=True)
+    n += nq
+    ctx.coverage['non_plain_scalar_loadings'] = nq
+    ctx.coverage['evaluations'] += len(ops)
     ctx.coverage['scalar_spellings_across_loaders'] = n
     ctx.coverage['plain_spellings_typed_differently'] = sorted(odd)
     ctx.coverage['evaluations'] += len(ops)
@@ -207,7 +231,13 @@ def documents(ctx, n):
 
 
 def tags(ctx):
-    pairs, sets = tables.tag_tables()
+    try:
+        pairs, sets = tables.tag_tables()
+    except tables.TableError as e:
+        # the tie (translator) broke: search with the reviewed copy of the tables for a concrete tag that is now mistreated
+        ctx.failing('the short-form tag tables can no longer be regenerated from rules/mod.rs: %s' % e, {'class': 'translator', 'problem': str(e)}, found=False)
+        j = json.load(open(os.path.join(VERIF, 'inventory', 'tag_tables.json')))
+        pairs, sets = [tuple(x) for x in j['pairs']], j['sets']
     long_of = dict(pairs)
     single, seq = sets['SINGLE_VALUE_FUNC_REF'], sets['SEQUENCE_VALUE_FUNC_REF']
     ops, meta = [], []
@@ -246,7 +276,9 @@ def tags(ctx):
 
 
 def rejects(ctx):
-    bad = ['{"a": [', 'a: b: c\n', 'a: [1, 2\n', '{1: a}\n', '? [a, b]\n: c\n', '{true: 1}\n', '{null: 1}\n', 'a: &x 1\nb: *x\n', '\t- a\n- b', '{"a": 1,}', '[1, 2', '"unterminated', '{a: 1}}']
+    bad = ['{"a": [', 'a: b: c\n', 'a: [1, 2\n', '{1: a}\n', '? [a, b]\n: c\n', '{true: 1}\n', '{null: 1}\n', 'a: &x 1\nb: *x\n', '\t- a\n- b', '{"a": 1,}', '[1, 2', '"unterminated', '{a: 1}}',
+           '- {1: a}\n', 'a: [{1: b}]\n', 'a:\n  - 443: open\n    name: x\n', '[[{true: 1}]]\n', 'a: [1, {null: 2}, 3]\n', 'a:\n  b:\n    - c:\n        - 1.5: x\n',
+           'a: {b: {2: c}}\n', '- - - {[1]: 2}\n']
     ops, meta = [], []
     for t in bad:
         for ld in ('cli', 'test', 'lib'):
@@ -262,7 +294,7 @@ def rejects(ctx):
             cls = 'accepted-by-some-loader'
             # aliases, a trailing comma in flow YAML and such are legal YAML for serde_yaml: what must never happen is a
             # non-string key or broken syntax being loaded as something else
-            nonstring_key = t.startswith(('{1:', '? [', '{true:', '{null:'))
+            nonstring_key = t.startswith(('{1:', '? [', '{true:', '{null:')) or bool(re.search(r'\{(1|true|null|2|\[1\]): |443: |1\.5: ', t))
             broken = t in ('{"a": [', 'a: [1, 2\n', '[1, 2', '"unterminated', 'a: b: c\n')
             if nonstring_key or broken:
                 ctx.failing('the %s loader accepts %r as %s' % (ld, t, str(v)[:120]), {'class': 'accepts-bad-document', 'text': t, 'loader': ld, 'loaded': str(v)[:300]}, found=True)
